@@ -2358,7 +2358,7 @@ func c04SparseEntries(c *Ctx, rule string) {
 				if bo, ok := x.(*ssa.BinOp); ok && bo.Op == token.ADD {
 					isOwn := func(v ssa.Value) bool {
 						lk, ok := v.(*ssa.Lookup)
-						return ok && lk.X == mu.Map && lk.Index == mu.Key
+						return ok && (lk.X == mu.Map || isSparseMap(lk.X)) && lk.Index == mu.Key
 					}
 					if isOwn(bo.X) {
 						x = bo.Y
